@@ -189,7 +189,7 @@ macro_rules! body {
                 let mut sb = big(module.cnv_prepare_left_tmp_bytes(asz, asz).max(module.cnv_prepare_right_tmp_bytes(bsz, bsz)));
                 module.cnv_prepare_left(&mut l, &a, -1, sb.borrow()); module.cnv_prepare_right(&mut r, &b, -1, sb.borrow());
                 let mut res = module.vec_znx_dft_alloc(1, rs);
-                let need = if op == 53 { module.cnv_apply_dft_tmp_bytes(off, rs, asz, bsz) } else { module.cnv_pairwise_apply_dft_tmp_bytes(off, rs, asz, bsz) };
+                let need = if op == 53 { module.cnv_apply_dft_tmp_bytes(off, rs, asz, bsz) } else { module.cnv_pairwise_apply_dft_tmp_bytes(rs, off, asz, bsz) };
                 $go(need, &mut |s: &mut Scratch<$T>| {
                     if op == 53 { module.cnv_apply_dft(off, &mut res, 0, &l, 0, &r, 0, s) } else { module.cnv_pairwise_apply_dft(off, &mut res, 0, &l, &r, 0, 1, s) }
                     res.data.as_ref().to_vec() }) }
@@ -308,6 +308,19 @@ macro_rules! body {
                 let mut r0 = GLWE::alloc_from_infos(&lr); r0.fill_uniform(u(p[2]), &mut src(59));
                 $go(module.glwe_trace_tmp_bytes(&lr, &la, &lk), &mut |s: &mut Scratch<$T>| {
                     let mut r = r0.clone(); module.glwe_trace(&mut r, skip, &a, &keys, s); r.data().data.clone() }) }
+            119 => { // glwe_trace_assign [be n | res(6) _(6) key(6) skip]
+                let (lr, lk) = (glwe_l(n, &p[2..8]), gglwe_l(n, &p[14..20]));
+                let skip = u(p[20]);
+                let mut keys: HashMap<i64, GLWEAutomorphismKeyPrepared<DeviceBuf<$T>, $T>> = HashMap::new();
+                for (j, g) in module.glwe_trace_galois_elements().into_iter().enumerate() {
+                    let mut key = GGLWE::alloc_from_infos(&lk); key.fill_uniform(u(p[14]), &mut src(60 + j as u64));
+                    let mut kp = module.glwe_automorphism_key_prepared_alloc_from_infos(&lk);
+                    let mut sb = big(module.gglwe_prepare_tmp_bytes(&lk)); module.gglwe_prepare(&mut kp, &key, sb.borrow());
+                    kp.set_p(g); keys.insert(g, kp);
+                }
+                let mut r0 = GLWE::alloc_from_infos(&lr); r0.fill_uniform(u(p[2]), &mut src(59));
+                $go(module.glwe_trace_tmp_bytes(&lr, &lr, &lk), &mut |s: &mut Scratch<$T>| {
+                    let mut r = r0.clone(); module.glwe_trace_assign(&mut r, skip, &keys, s); r.data().data.clone() }) }
             113 | 114 | 115 | 117 => { // glwe_normalize / glwe_rsh / glwe_rotate_assign / glwe_lsh_assign  [be n | res(6) a(6) k]
                 let (lr, la) = (glwe_l(n, &p[2..8]), glwe_l(n, &p[8..14])); let k = u(p[14]);
                 let mut a = GLWE::alloc_from_infos(&la); a.fill_uniform(u(p[8]), &mut src(70));
@@ -702,7 +715,7 @@ fn min_n(op: i64, fft: bool) -> i128 {
         104 => 8, // glwe_public_key_generate (set-up of the record) itself allocates glwe_encrypt_sk_tmp_bytes and panics below 8
         106..=109 | 120..=124 => if fft { 8 } else { 2 },
         125 | 126 => if fft { 8 } else { 2 },
-        110..=112 => if fft { 8 } else { 2 },
+        110..=112 | 119 => if fft { 8 } else { 2 },
         115 => 2,
         _ => 1,
     }
@@ -881,8 +894,8 @@ pub fn generate(tier: &str, seed: u64) -> Vec<Rec> {
                         g.push(110, ps.clone(), dense_core, true);
                         g.push(111, ps.clone(), dense_core, true);
                         let mut pt = ps.clone(); pt.push(0);
-                        let same = rb == kb && ab == kb;
-                        g.push(112, pt, dense_core && n <= 16, same);
+                        g.push(112, pt.clone(), dense_core && n <= 16, true);
+                        g.push(119, pt, dense_core && n <= 16, true);
                     }
                     // external product: the GGSW has rank_in = rank
                     let mut pe = vec![be, n];
